@@ -176,7 +176,13 @@ def gen_fanin_history(seed, rng):
     if rng.random() < 0.5:
         plain = [rng.choice(inputs)] if rng.random() < 0.5 else []
         call([mid] + rng.sample(inputs, rng.randrange(0, len(inputs))), stored=True, deps=plain)
-    world = dict(nodes=nodes, stores=stores, late_deps=[], output=rng.choice([None, ["n", mid], ["n", len(nodes) - 1]]))
+    outs = [["n", mid], ["n", len(nodes) - 1]]
+    if rng.random() < 0.5:
+        # fan-out: several consumers of the rebuilt value become ready at the same moment (after its read-back)
+        cons = [call([mid] + ([rng.choice(inputs)] if rng.random() < 0.3 else []), stored=rng.random() < 0.3)
+                for _ in range(rng.randrange(2, 5))]
+        outs.append(["L", [["n", c] for c in cons]])
+    world = dict(nodes=nodes, stores=stores, late_deps=[], output=rng.choice([None] + outs))
     cfg = dict(max_workers=rng.choice([2, 3]), scheduler=rng.choice([None, "default", "random"]), max_errors=0, retry=None,
                stale_workers=rng.choice([2, 3, 4]), output=rng.random() < 0.5, use_fresh=True)
     ops = [dict(op="run", cfg=dict(cfg))]
@@ -246,7 +252,12 @@ def gen_c09(seed, tier):
 
 
 def o_c09(rec, world, hist):
-    return R.o_writeread(rec, world, hist)
+    out = R.o_writeread(rec, world, hist)
+    if not out and rec.exc is None and not rec.aborted and not rec.op.get("cfg", {}).get("dry_run"):
+        # what consumers (and the output) receive is what the store's read returned: every executed call computed
+        # the value that evaluation with read-back semantics gives (normalising stores make the difference visible)
+        out = O.o_value(rec, world, hist)
+    return out
 
 
 GEN = {"C03": gen_c03, "C05": gen_c05, "C09": gen_c09}
@@ -262,6 +273,13 @@ def gen_c14(seed, tier):
     desc["ops"][-1]["cfg"]["transform"] = rng.choice([None, None, "extra-call", "wrap-output", "both"])
     names = sorted(desc["world"]["stores"])
     r = rng.random()
+    if rng.random() < 0.25:
+        # a second dry run of the same Plan and Registry - with another fresh_time, hence other decisions - goes on in
+        # another thread while the dry run under test is planned
+        desc["dry_concurrent"] = dict(fresh=rng.choice(["far-future", "none"]), stale_workers=rng.choice([1, 2, 3]))
+        r = 1.0
+        desc["ops"][-1]["sched"] = dict(strategy=rng.choice([["rw", 0.05, 0.5], ["rw", 0.2, 0.5], ["pct", 5, 800], ["pct", 3, 300, 1]]),
+                                        gran=rng.choice(["line", "opcode+"]), salt=desc["sched"]["salt"])
     if names and r < 0.3:
         # a store that cannot be examined: the real run fails in the stale check, so must the dry run
         desc["ops"][-1]["faults"] = dict(stores=[dict(store=rng.choice(names), op="mtime",
@@ -321,7 +339,37 @@ def exec_c14(prop, desc):
     # (1) the dry run
     dop = copy.deepcopy(op)
     dop["cfg"]["dry_run"] = True
-    rec_d = machine.run_op(hist, dop, last, tape=tapes.get(str(last)))
+    wrap = None
+    if desc.get("dry_concurrent"):
+        import datetime as _dt
+
+        from simkit import prims
+
+        dc = desc["dry_concurrent"]
+
+        def wrap(client, sim, rt, built, kwargs):
+            kw2 = {k: v for k, v in kwargs.items() if k in ("registry", "max_workers", "scheduler", "output")}
+            kw2.update(dry_run=True, progress=None, stale_check_max_workers=dc["stale_workers"])
+            if dc["fresh"] == "far-future":
+                kw2["fresh_time"] = _dt.datetime(2200, 1, 1, tzinfo=_dt.timezone.utc)
+            box = {}
+
+            def other():
+                try:
+                    box["r"] = uberjob.run(built.plan, **kw2)
+                except BaseException as e:  # noqa
+                    box["e"] = e
+                    if type(e).__name__ == "SimAbort":
+                        raise
+
+            t = prims.Thread(target=other)
+            t.start()
+            try:
+                return client()
+            finally:
+                t.join()
+
+    rec_d = machine.run_op(hist, dop, last, tape=tapes.get(str(last)), client_wrap=wrap)
     touched = [ev for ev in rec_d.events if ev[3] in ("call-start", "side-write", "store-effect")
                or (ev[3] == "store-start" and ev[4] != "mtime")]
     if touched:
